@@ -13,6 +13,7 @@ type Lexer struct {
 	column  int
 	atStart bool
 	header  headerState
+	last    TokenType // type of the previous token
 }
 
 // headerState tracks the position inside a transaction header line, where the
@@ -37,6 +38,12 @@ func NewLexer(input string) *Lexer {
 }
 
 func (l *Lexer) Next() Token {
+	tok := l.next()
+	l.last = tok.Type
+	return tok
+}
+
+func (l *Lexer) next() Token {
 	if l.pos >= len(l.input) {
 		return l.makeToken(TokenEOF, "")
 	}
@@ -580,7 +587,8 @@ func (l *Lexer) nextIsLetterCommodity() bool {
 }
 
 func (l *Lexer) followsAmountNumber(pos int) bool {
-	if pos == 0 {
+	// a digit that ends the account name is not an amount
+	if pos == 0 || l.last != TokenNumber {
 		return false
 	}
 	p := pos - 1
